@@ -126,8 +126,6 @@ fn below_incl(p: &mut Prng, m: &[u8]) -> Vec<u8> {
     }
 }
 
-pub const N_SHAPES: u8 = 12;
-
 /// range size r in 1..=2^W-1 as W bytes, or None for the full range; returns (r, shape id)
 fn gen_rsize(p: &mut Prng, w: usize, db: usize, shape_w: &[u32]) -> (Option<Vec<u8>>, u8) {
     let bits = (w * 8) as u64;
@@ -301,11 +299,15 @@ fn range_call_plan(p: &mut Prng, sw: &Swarm, w: usize, db: usize) -> Vec<Plan> {
         }
         plan.push(first_word(p, sw, w, db));
         if sw.fault_stall && p.chance(1, 6) {
-            let k = match p.below(4) {
-                0 => 1,
-                1 => 1 + p.below(4),
-                2 => 1 + p.below(16),
-                _ => 1 + p.below(64),
+            // how long the source stays stuck on the rejected word; occasionally very long (a retry cap in the
+            // sampler, if there were one, would be crossed)
+            let k = match p.below(40) {
+                0..=9 => 1,
+                10..=19 => 1 + p.below(4),
+                20..=29 => 1 + p.below(16),
+                30..=37 => 1 + p.below(64),
+                38 => 65 + p.below(240),
+                _ => [99, 100, 101, 127, 128, 129, 255, 256, 257, 999, 1000, 1001, 1023, 1024, 1025][p.below(15) as usize],
             };
             for _ in 0..k {
                 plan.push(Plan::Repeat);
@@ -410,17 +412,24 @@ fn mixed_op(p: &mut Prng, sw: &Swarm, w: usize, db: usize, signed: bool, shape_w
             Op { kind: OpKind::Uniform { low, high, inclusive, ctor }, dynamic, calls: (0..1 + p.below(8)).map(|_| range_call_plan(p, sw, w, db)).collect(), shape }
         }
         4 => {
-            let len = match p.below(5) {
-                0 => 0,
-                1 => 1,
-                _ => p.below(max_len + 1) as usize,
+            let len = match p.below(50) {
+                0..=9 => 0,
+                10..=19 => 1,
+                20..=46 => p.below(max_len + 1) as usize,
+                47..=48 => 10 + p.below(if w > 256 { 4 } else { 40 }) as usize,
+                _ => {
+                    // total byte size just below / at / above a power-of-two boundary (chunked fills)
+                    let b = [255usize, 256, 257, 511, 512, 513, 1023, 1024, 1025, 4095, 4096, 4097, 65535, 65536, 65537][p.below(15) as usize];
+                    let l = (b + w - 1) / w;
+                    (l + p.below(3) as usize).saturating_sub(1).min(if w > 256 { 70 } else { 70_000 })
+                }
             };
             let via = [FillVia::TryFillSlice, FillVia::TryFillSlice, FillVia::FillTrait, FillVia::RngTryFill, FillVia::RngFill][p.below(5) as usize];
             let init = [0u8, 0xFF, 0x5A][p.below(3) as usize];
             Op { kind: OpKind::Fill { len, init, via }, dynamic, calls: (0..1 + p.below(2)).map(|_| fill_call_plan(p, sw, w * len.max(1), db)).collect(), shape: 0 }
         }
         _ => {
-            let len = p.below(max_len + 1) as usize;
+            let len = if p.chance(1, 25) { 10 + p.below(if w > 256 { 4 } else { 300 }) as usize } else { p.below(max_len + 1) as usize };
             let stream = p.bytes(len * w + 8);
             Op { kind: OpKind::FillVsElem { len, stream }, dynamic, calls: vec![vec![]], shape: 0 }
         }
